@@ -123,6 +123,7 @@ int main(int argc, char** argv)
   if (cmd != "run") return 2;
   auto t0 = std::chrono::steady_clock::now();
   ctx.sample_stride = std::max<uint64_t>(1, ctx.ncases / 12);
+  if (ctx.tier == "thorough") ctx.distinct = HashSet64((size_t)1 << 25);
   bool exhaustive = false; std::string note;
   if (!pre.empty()) {   // replay tier: saved failing cases of earlier runs (one per line: comma-separated args), evaluated first
     std::ifstream in(pre); std::string line;
